@@ -155,17 +155,33 @@ func (f *Frame) externErrorsAs(v ssa.Value, argVals []ssa.Value, args []T, pos t
 	s := f.p.sortOf(target)
 	tg := IntLit(int64(f.p.tagOf(target)))
 	exact := Eq(App(SInt, "tag", errv), tg)
-	found := f.enc.declConst(f.enc.fresh(f.sym(v.Name()+"_found")), s)
-	f.typeFacts(found, target)
-	// exact dynamic type: found immediately
-	f.enc.factAbout(ok, Implies(exact, And(ok, Eq(found, App(s, f.plFun(s), errv)))))
-	// nil error: never found
-	f.enc.factAbout(ok, Implies(Eq(App(SInt, "tag", errv), Zero), Not(ok)))
+	// deterministic: the first value of the target type in the error's chain
+	found := unwrapTerm(f.enc, f.p, errv, target)
 	if s == SInt {
-		f.enc.factAbout(ok, Implies(ok, And(Lt(Zero, found), Le(found, f.alloc()))))
+		f.enc.factAbout(ok, Eq(ok, Not(Eq(found, Zero))))
+		f.enc.factAbout(ok, Implies(ok, Le(found, f.alloc())))
+	} else {
+		f.enc.factAbout(ok, Implies(exact, ok))
+		f.enc.factAbout(ok, Implies(Eq(App(SInt, "tag", errv), Zero), Not(ok)))
 	}
 	old := f.load(lv, target)
 	f.store(lv, Ite(ok, found, old))
+}
+
+// unwrapTerm: errors.As target lookup as a deterministic function of the error value.
+func unwrapTerm(e *Enc, p *Program, errv T, target types.Type) T {
+	s := p.sortOf(target)
+	fn := e.declFun("unwrap_"+sanitize(types.TypeString(target, nil)), []Sort{SIface}, s)
+	tg := IntLit(int64(p.tagOf(target)))
+	pl := "pl_" + sortSuffix(s)
+	// axioms of the lookup, attached to the function symbol
+	if len(e.facts[fn]) == 0 {
+		e.addFact(fn, fmt.Sprintf("(assert (forall ((e!u Iface)) (! (=> (= (tag e!u) %s) (= (%s e!u) (%s e!u))) :pattern ((%s e!u)))))", tg.S, fn, pl, fn))
+		if s == SInt {
+			e.addFact(fn, fmt.Sprintf("(assert (forall ((e!u Iface)) (! (and (<= 0 (%s e!u)) (=> (= (tag e!u) 0) (= (%s e!u) 0))) :pattern ((%s e!u)))))", fn, fn, fn))
+		}
+	}
+	return App(s, fn, errv)
 }
 
 // ---- locks (ghost held-set keyed by the mutex address term) ----
